@@ -38,12 +38,20 @@ fn generate_fvar(static_metadata: &StaticMetadata) -> Option<Fvar> {
     // Reuse an existing name record if possible (and allowed by the spec)
     let reverse_names = static_metadata.reverse_names();
     let min_font_specific_name_id = NameId::new(256);
-    let reusable_name_id = |name: &str, allow_reserved: bool| {
+    // the only spec-reserved ids an instance may point at are the (typographic)
+    // subfamily names, and only for the default instance; a string that also sits
+    // under another reserved id (family, full name...) must not drag that id in
+    let reusable_name_id = |name: &str, allow_subfamily: bool| {
         reverse_names
             .get(name)
             .unwrap()
             .iter()
-            .find(|&&name_id| allow_reserved || name_id >= min_font_specific_name_id)
+            .find(|&&name_id| {
+                name_id >= min_font_specific_name_id
+                    || (allow_subfamily
+                        && (name_id == NameId::SUBFAMILY_NAME
+                            || name_id == NameId::TYPOGRAPHIC_SUBFAMILY_NAME))
+            })
             .cloned()
             .unwrap()
     };
